@@ -954,6 +954,20 @@ def _context_window(prog: Program, run: Run, R: str) -> None:
                     x.targets[0], ast.Attribute) and isinstance(x.targets[0].value, ast.Name) \
                     and x.targets[0].value.id == "context":
                 setters.append((f, x.targets[0].attr, x))
+    # fields that the entry points fill in for the whole pass (retarget_snrefs: the layer whose
+    # view counts, the database) belong to them: no _resolve_snrefs may overwrite or clear them
+    rt = prog.func("odxtools.utils:retarget_snrefs")
+    owned = {x.targets[0].attr for x in walk_no_nested(rt.node) if isinstance(x, ast.Assign) and
+             isinstance(x.targets[0], ast.Attribute) and isinstance(x.targets[0].value, ast.Name)
+             and x.targets[0].value.id == "context"}
+    for f, fld, st in setters:
+        if f.name == "_resolve_snrefs" and fld in owned:
+            run.violation(R, f"{f.module.rel}:{f.qual}", f"context-{fld}-overwritten",
+                          f"`{stmt_key(st)}`: context.{fld} is set by retarget_snrefs() for the "
+                          "whole pass (the layer whose inherited view the references are "
+                          "resolved in); a _resolve_snrefs that writes it makes every object "
+                          "resolved afterwards fall back to its own layer",
+                          f"{f.module.rel}:{st.lineno}", stmt_key(st))
     n = 0
     for f, fld, st in setters:
         if isinstance(st.value, ast.Constant) and st.value.value is None:
